@@ -5,13 +5,17 @@
 (* some disabled, some local paths), driven by a seeded random sequence of *)
 (* forced / scheduled refreshes and restarts against a server that plays   *)
 (* random behaviours with random texts of up to hundreds of lines:         *)
-(*   {ev: "boot", cfg}                       a new DNSFilter, empty dir    *)
-(*   {ev: "step", act, script, obs, rew}     one action and the projected  *)
-(*                                           state observed after it       *)
+(*   {ev: "boot", cfg}                       a new DNSFilter, empty dir;   *)
+(*                                           cfg.cosm = the parser policy  *)
+(*                                           the orchestrator measured     *)
+(*   {ev: "step", act, script, obs, rew,     one action, the projected     *)
+(*    sumchg}                                state observed after it, the  *)
+(*                                           lists whose file was replaced *)
+(*                                           and those whose remembered    *)
+(*                                           checksum changed              *)
 (* Every step must be a step of FilterRefreshCore: the observation must be *)
-(* the projection of one of Results(cfg, S, act, script).  A step that is  *)
-(* only explained by the `asis` component (today's early return before     *)
-(* the engine rebuild) is reported separately; anything else is `bad`.     *)
+(* the projection of one of Results(cfg, S, act, script) resp. of          *)
+(* Restarted(cfg, S); anything else is `bad`.                              *)
 (* After a rejected step the specification state is re-synchronised with   *)
 (* the observation so that one disagreement is reported once.              *)
 (***************************************************************************)
@@ -26,8 +30,8 @@ Probed == {"R1", "R2", "R3", "R4", "R5", "R6"}
 
 INSTANCE FilterRefreshCore WITH Lists <- TLists, Block <- TBlock
 
-VARIABLES l, cfg, S, bad, asis, odd
-vars == <<l, cfg, S, bad, asis, odd>>
+VARIABLES l, cfg, S, bad, odd
+vars == <<l, cfg, S, bad, odd>>
 
 SetOf(s) == {s[i] : i \in DOMAIN s}
 
@@ -48,14 +52,14 @@ Resync(obs) ==
      eng   |-> [x \in TLists |-> SetOf(obs.eng[x])]]
 
 Init == /\ l = 1
-        /\ cfg = [enabled |-> [x \in TLists |-> TRUE], src |-> [x \in TLists |-> "http"]]
+        /\ cfg = [enabled |-> [x \in TLists |-> TRUE], src |-> [x \in TLists |-> "http"], cosm |-> FALSE]
         /\ S = S0
-        /\ bad = {} /\ asis = {} /\ odd = {}
+        /\ bad = {} /\ odd = {}
 
 Boot == /\ Trace[l].ev = "boot"
         /\ cfg' = Trace[l].cfg
         /\ S' = S0
-        /\ UNCHANGED <<bad, asis, odd>>
+        /\ UNCHANGED <<bad, odd>>
 
 Step ==
     /\ Trace[l].ev = "step"
@@ -71,24 +75,26 @@ Step ==
        IN IF ~sane
           THEN /\ odd' = odd \cup {l}
                /\ S' = Resync(r.obs)
-               /\ UNCHANGED <<bad, asis>>
+               /\ UNCHANGED bad
           ELSE \E cands \in {IF act.a = "restart"
-                              THEN {[st |-> rst, asis |-> rst, rew |-> {}, failed |-> {}]}
+                              THEN {[st |-> rst, rew |-> {}]}
                               ELSE Results(cfg, S, act, r.script)} :
-               LET rewOk(c) == act.a = "restart" \/ c.rew = SetOf(r.rew) IN
-               \E good \in {{c \in cands : ProjEq(c.st, r.obs) /\ rewOk(c)}} :
+               LET \* replaced files are observable for refreshes (a restart
+                   \* replaces nothing; the inode is not looked at there)
+                   rewOk(c) == act.a = "restart" \/ c.rew = SetOf(r.rew)
+                   \* the remembered checksum changes exactly where the spec's does
+                   sumOk(c) == {x \in TLists : c.st.sum[x] # S.sum[x]} = SetOf(r.sumchg)
+               IN
+               \E good \in {{c \in cands : ProjEq(c.st, r.obs) /\ rewOk(c) /\ sumOk(c)}} :
                   /\ odd' = odd
                   /\ IF good # {}
-                     THEN S' = (CHOOSE c \in good : TRUE).st /\ UNCHANGED <<bad, asis>>
-                     ELSE \E ai \in {{c \in cands : ProjEq(c.asis, r.obs) /\ rewOk(c)}} :
-                          IF ai # {}
-                          THEN S' = (CHOOSE c \in ai : TRUE).asis /\ asis' = asis \cup {l} /\ UNCHANGED bad
-                          ELSE S' = Resync(r.obs) /\ bad' = bad \cup {l} /\ UNCHANGED asis
+                     THEN S' = (CHOOSE c \in good : TRUE).st /\ UNCHANGED bad
+                     ELSE S' = Resync(r.obs) /\ bad' = bad \cup {l}
 
 Next == /\ l <= Len(Trace)
         /\ (Boot \/ Step)
         /\ l' = l + 1
         /\ (l' = Len(Trace) + 1 =>
-              PrintT(<<"@@V", ToJson([n |-> Len(Trace), bad |-> bad', asis |-> asis', odd |-> odd'])>>))
+              PrintT(<<"@@V", ToJson([n |-> Len(Trace), bad |-> bad', odd |-> odd'])>>))
 Spec == Init /\ [][Next]_vars
 =============================================================================
